@@ -6,6 +6,7 @@ import (
 	"github.com/apache/yunikorn-core/pkg/common/configs"
 	"github.com/apache/yunikorn-core/pkg/common/resources"
 	"github.com/apache/yunikorn-core/pkg/common/security"
+	"github.com/apache/yunikorn-core/pkg/plugins"
 	"github.com/apache/yunikorn-core/pkg/rmproxy/rmevent"
 	"github.com/apache/yunikorn-core/pkg/scheduler/objects"
 	"github.com/apache/yunikorn-scheduler-interface/lib/go/si"
@@ -64,22 +65,42 @@ func vecOf(r *resources.Resource) vVec {
 	return v
 }
 
+// vRecorder stands for the shim side of the event handler. It only counts (per allocation key of interest):
+// appending to slices under many symbolic guards is what makes merged symbolic execution expensive.
 type vRecorder struct {
-	released []*si.AllocationRelease
-	appUpd   []*si.UpdatedApplication
-	other    int
+	nRelease   int            // release announcements
+	relByKey   map[string]int // per allocation key
+	nAppUpd    int
+	lastState  string
+	nNewAlloc  int
+	other      int
 }
 
 func (r *vRecorder) HandleEvent(ev interface{}) {
 	switch e := ev.(type) {
 	case *rmevent.RMReleaseAllocationEvent:
-		r.released = append(r.released, e.ReleasedAllocations...)
+		for _, rel := range e.ReleasedAllocations {
+			r.nRelease++
+			if r.relByKey == nil {
+				r.relByKey = map[string]int{}
+			}
+			r.relByKey[rel.AllocationKey]++
+		}
 		if e.Channel != nil {
 			c := e.Channel
 			go func() { c <- &rmevent.Result{Succeeded: true} }()
 		}
 	case *rmevent.RMApplicationUpdateEvent:
-		r.appUpd = append(r.appUpd, e.UpdatedApplications...)
+		for _, u := range e.UpdatedApplications {
+			r.nAppUpd++
+			r.lastState = u.State
+		}
+	case *rmevent.RMNewAllocationsEvent:
+		r.nNewAlloc += len(e.Allocations)
+		if e.Channel != nil {
+			c := e.Channel
+			go func() { c <- &rmevent.Result{Succeeded: true} }()
+		}
 	default:
 		r.other++
 	}
@@ -175,13 +196,19 @@ func (c *vNodeColl) AddNode(n *objects.Node) error {
 	return nil
 }
 func (c *vNodeColl) RemoveNode(id string) *objects.Node {
-	for i, o := range c.nodes {
-		if o.NodeID == id {
-			c.nodes = append(c.nodes[:i:i], c.nodes[i+1:]...)
-			return o
+	var found *objects.Node
+	var rest []*objects.Node
+	for _, o := range c.nodes {
+		if o.NodeID == id && found == nil {
+			found = o
+		} else {
+			rest = append(rest, o)
 		}
 	}
-	return nil
+	if found != nil {
+		c.nodes = rest
+	}
+	return found
 }
 func (c *vNodeColl) GetNode(id string) *objects.Node {
 	for _, o := range c.nodes {
@@ -221,3 +248,48 @@ type vErr struct{}
 func (vErr) Error() string { return "duplicate node" }
 
 var errDup error = vErr{}
+
+// ---- shim predicate plugin with symbolic / scripted verdicts ----
+
+type vPlugin struct {
+	deny map[string]bool // allocationKey|nodeID -> refuse
+}
+
+func (p *vPlugin) UpdateAllocation(*si.AllocationResponse) error   { return nil }
+func (p *vPlugin) UpdateApplication(*si.ApplicationResponse) error { return nil }
+func (p *vPlugin) UpdateNode(*si.NodeResponse) error               { return nil }
+func (p *vPlugin) Predicates(args *si.PredicatesArgs) error {
+	if p.deny[args.AllocationKey+"|"+args.NodeID] {
+		return vErr{}
+	}
+	return nil
+}
+func (p *vPlugin) PreemptionPredicates(*si.PreemptionPredicatesArgs) *si.PreemptionPredicatesResponse {
+	return nil
+}
+func (p *vPlugin) SendEvent([]*si.EventRecord)                                              {}
+func (p *vPlugin) UpdateContainerSchedulingState(*si.UpdateContainerSchedulingStateRequest) {}
+func (p *vPlugin) GetStateDump() (string, error)                                            { return "", nil }
+
+// gang application: placeholder ask-ph (task group tg-1) and real ask ask-real
+func (w *vPW) addGangApp(id string) *objects.Application {
+	app := objects.NewApplication(&si.AddApplicationRequest{ApplicationID: id, QueueName: "root.default", PartitionName: "default",
+		GangSchedulingStyle: "Soft", ExecutionTimeoutMilliSeconds: 60000},
+		security.UserGroup{User: "u1", Groups: []string{"g1"}}, w.rec, "rm-1")
+	if err := w.pc.AddApplication(app); err != nil {
+		vAssert(false, "world: application could not be added")
+	}
+	return app
+}
+
+func vSIGang(key, app, node, tg string, ph bool, res *resources.Resource) *si.Allocation {
+	return &si.Allocation{AllocationKey: key, ApplicationID: app, NodeID: node, ResourcePerAlloc: res.ToProto(), TaskGroupName: tg, Placeholder: ph}
+}
+
+func vRegisterDeny(pairs ...string) {
+	p := &vPlugin{deny: map[string]bool{}}
+	for _, k := range pairs {
+		p.deny[k] = true
+	}
+	plugins.RegisterSchedulerPlugin(p)
+}
